@@ -53,6 +53,55 @@ fn spec_numbering(root: &[Option<i128>], add: &[Option<i128>]) -> Option<(Vec<i1
     Some((r, a))
 }
 
+/// C14.order: "the original enumeral identifiers are preserved in order" between the parser and the generator: the
+/// lexer->IR conversion `From<(root, marker, additions)> for Enumerated` is evaluated on enumerals whose numbers do not
+/// ascend in source order — the member list is root ++ additions exactly as written (names and numbers), with and
+/// without a marker; nothing is sorted, dropped or renumbered there.
+fn conversion_keeps_order(m: &Model, ctx: &mut Ctx) {
+    let rule = "C14.order";
+    let fs: Vec<&crate::model::FnInfo> = crate::rules::c05::from_impls(m).into_iter().filter(|f| f.self_ty.as_deref() == Some("Enumerated")).collect();
+    ctx.floor("C14.order/conversions", fs.len(), 1);
+    let consts = const_resolver(m);
+    let ev = Evaluator { consts: &consts, call_hook: &crate::eval::no_hook, inline: None };
+    let enumeral = |n: &str, i: i128| Val::Ctor("Enumeral".into(), vec![], [("name".to_string(), Val::Str(n.into())), ("index".to_string(), Val::int(i)), ("description".to_string(), Val::none())].into_iter().collect());
+    for f in fs {
+        ctx.func(&f.key);
+        let Some(syn::FnArg::Typed(pt)) = f.sig.inputs.first() else { continue };
+        let pname = tok(&pt.pat).replace("mut ", "");
+        let nested = tok(&pt.ty).starts_with("((");
+        let cases: Vec<(&str, Vec<(&str, i128)>, bool, Option<Vec<(&str, i128)>>)> = vec![
+            ("descending root, marker", vec![("a", 5), ("b", 0), ("c", 2)], true, None),
+            ("descending root, no marker", vec![("a", 5), ("b", 0), ("c", 2)], false, None),
+            ("descending root and additions", vec![("a", 5), ("b", 0)], true, Some(vec![("d", 9), ("e", 7)])),
+            ("negative number first", vec![("x", 1), ("y", -1), ("z", 0)], true, Some(vec![("w", 2)])),
+        ];
+        for (label, root, marker, adds) in cases {
+            ctx.oblige(rule, &format!("{}:{}", f.key, label), true);
+            let rv = Val::List(root.iter().map(|(n, i)| enumeral(n, *i)).collect());
+            let mv = if marker { Val::some(Val::ctor("ExtensionMarker")) } else { Val::none() };
+            let av = match &adds { Some(a) => Val::some(Val::List(a.iter().map(|(n, i)| enumeral(n, *i)).collect())), None => Val::none() };
+            let input = if nested { Val::Tuple(vec![Val::Tuple(vec![rv, mv, av])]) } else { Val::Tuple(vec![rv, mv, av]) };
+            let mut env = Env::new();
+            env.insert(pname.clone(), input);
+            let want: Vec<(String, i128)> = root.iter().chain(adds.iter().flatten()).map(|(n, i)| (n.to_string(), *i)).collect();
+            match ev.eval_fn_body(&f.block, &mut env) {
+                Ok(Val::Ctor(_, _, fl)) => {
+                    let got: Vec<(String, i128)> = match fl.get("members") {
+                        Some(Val::List(l)) => l.iter().map(|e| match e { Val::Ctor(_, _, ef) => (match ef.get("name") { Some(Val::Str(s)) => s.clone(), _ => "?".into() }, match ef.get("index") { Some(Val::Int { v, .. }) => *v, _ => i128::MIN }), _ => ("?".into(), i128::MIN) }).collect(),
+                        _ => vec![],
+                    };
+                    if got != want {
+                        ctx.violate(rule, "conversion-reorders", &f.file, f.line,
+                            &format!("the lexer->IR conversion for ENUMERATED turns the parsed enumerals {:?} ({}) into the member list {:?}: identifiers and their numbers must be kept in source order (the generator emits the members in list order, PER encodes by position)", want, label, got));
+                    }
+                }
+                Ok(o) => ctx.fail_closed(rule, &format!("[{}]: {}", label, o.show().chars().take(100).collect::<String>())),
+                Err(e) => ctx.fail_closed(rule, &format!("[{}]: {}", label, e)),
+            }
+        }
+    }
+}
+
 pub fn run(m: &Model, ctx: &mut Ctx) {
     ctx.explanation = "C14.num: the numbering code of the lexer (the closure(s) that build `Enumeral { .. }` inside the parser constructors called by enumerated_body, with the constructors' own leading lets) is evaluated abstractly on every enumeration with up to 4 root items and up to 3 additions, each identifier-only or carrying a number from the property's value set {-1,0,1,2,5}, and compared with the numbering of X.680 clause 20 (20.3: identifier-only root items get successive integers from 0 excluding every number written explicitly in the root; 20.6: an identifier-only addition gets the smallest number not used in the root and greater than all preceding additions); inputs that violate the clause's own preconditions are skipped. Explicit numbers (including negative ones), identifiers and order are compared in the same run. \
 C14.start: the root list is numbered from 0 and the additions' numbering is derived from the root list, never from a constant. \
@@ -64,6 +113,7 @@ Not decided: enumerations larger than the evaluated domain (the numbering code i
     let consts = const_resolver(m);
     let ev = Evaluator { consts: &consts, call_hook: &crate::eval::no_hook, inline: None };
 
+    conversion_keeps_order(m, ctx);
     let Some(body) = anchor_fn(m, ctx, "C14.start", None, "enumerated_body", Some("lexer::enumerated")) else { return };
     // the two parser constructors: (callee fn name, argument expressions), in source order
     let ctor_calls: Vec<syn::ExprCall> = model::calls_in(&body.block).into_iter().filter(|c| {
